@@ -127,6 +127,11 @@ static void dump_state(void) {
         lput(" r="); dump_pending(&ch->read_pending);
         lput(" w="); dump_pending(&ch->write_pending);
         lput(" X=%d", ch->closed);
+        {   /* what (ev/count c) (ev/full c) (ev/capacity c) return in this state: the real cfuns */
+            Janet av = janet_wrap_abstract(ch);
+            Janet cn = cfun_channel_count(1, &av), fu = cfun_channel_full(1, &av), ca = cfun_channel_capacity(1, &av);
+            lput(" n=%d/%d/%d", (int) janet_unwrap_integer(cn), janet_truthy(fu) ? 1 : 0, (int) janet_unwrap_integer(ca));
+        }
     }
     lput("|q=");
     JanetTask *t = janet_vm.spawn.data;
